@@ -351,6 +351,13 @@ func (e *Engine) call(fr *Frame, st *State, reach Term, site ssa.Instruction, c 
 		id = e.P.FuncIDOf(callee)
 	}
 	label := e.callLabel(id, callee, c)
+	for _, fcall := range e.P.Contracts.ForbidCalls {
+		if fcall.Callee == id {
+			if o := e.oblige("structure", "structure.no_call."+id+"@"+label, "call of "+id+" is not allowed here: "+fcall.Reason, reach, False, nil); o != nil {
+				o.Props = fcall.Props
+			}
+		}
+	}
 	if e.lockChecks && pre == nil && e.unwinding == 0 && !strings.HasPrefix(id, "sync.") && len(st.acquired) > 0 {
 		// a lock taken by this function and still held across a call must be released by a deferred Unlock:
 		// a panic in the callee (recovered further up: refresh goroutines, the HTTP server) would otherwise leak it
@@ -433,6 +440,14 @@ func (e *Engine) call(fr *Frame, st *State, reach Term, site ssa.Instruction, c 
 	// unknown effect
 	if id == "" {
 		id = "dynamic call"
+	}
+	if e.P.optimistic[id] {
+		// second opinion (see check): the unknown callee is taken to return arbitrary values and to change nothing
+		e.note("call to %s has no contract: taken as free of effects for the second opinion", id)
+		e.used["uncontracted:"+id] = true
+		res := e.havocVal(reach, "res."+label, resType)
+		e.setLabel(label, &callLabel{Callee: id, Reach: reach, Args: args, Results: splitResults(res), After: st.clone()})
+		return res, reach
 	}
 	e.note("call to %s has no contract: results and all heap state havoc'd", id)
 	e.used["uncontracted:"+id] = true
